@@ -10,6 +10,7 @@
 #include "oscgen.h"
 #include "bundlegen.h"
 #include "guard.h"
+#include <set>
 
 static guard::Arena A;
 static volatile uint64_t g_progress = 0;
@@ -132,6 +133,16 @@ static void run_one(const uint8_t *bytes, size_t n, const char *family)
                 return;
             }
         }
+        if(sig == 0 && placement == 0 && d.ok && n >= 8) {
+            // the same bytes at addresses that are not multiples of 4 (nothing may depend on where the caller keeps the message);
+            // the 1..3 bytes between the buffer and the guard page hold a canary
+            for(size_t k = 1; k <= 3 && !sig; ++k) {
+                uint8_t *ub = A.at_end(n + k);
+                memcpy(ub, bytes, n); memset(ub + n, guard::CANARY, k);
+                sig = guard::guarded([&] { check_buffer(ub, n, cid, shape + ",unaligned-address", d); });
+                buf = ub;
+            }
+        }
         if(sig) {
             long off = (long)((uint8_t *)guard::g_fault_addr - buf);
             vp::violation(std::string("read-outside-buffer|") + (off < 0 ? "before" : "behind") + "|" + shape, cid,
@@ -235,6 +246,29 @@ int main(int argc, char **argv)
             for(auto &m : muts) if(m.size() == base.size()) for(size_t p = 4; p < m.size(); p += 1) if(m != base && (p % 4 == 0)) { std::string t = m.substr(0, p); run_one((const uint8_t *)t.data(), t.size(), "mut2"); }
         }
         if(top % 101 == 0) vp::sample("base " + vp::hex(base.data(), base.size()) + " -> " + std::to_string(muts.size()) + " single deviations");
+    }
+    // (2a) large valid messages (blobs and strings of 130..400 bytes that are not the last argument): every truncation, every
+    //      byte of the first 40 and of the 16 around each payload boundary set to each of 14 values, blob size field edits
+    {
+        static const char *LT[] = {"bi", "bs", "sbi", "bbh", "sS"};
+        for(const char *ts : LT) for(size_t big : {130u, 200u, 255u, 256u, 384u}) {
+            if(!vp::mine(top++)) continue;
+            std::vector<ref::Arg> args;
+            for(const char *t = ts; *t; ++t) if(ref::has_data(*t)) {
+                ref::Arg a; a.type = *t; a.u32 = 0x01020304u; a.u64 = 0x0102030405060708ull;
+                a.s = std::string(args.empty() ? big : 3, 'L'); a.b.assign(args.empty() ? big : 5, 0x81); a.b_len = (uint32_t)a.b.size();
+                args.push_back(a);
+            }
+            std::string base = ref::encode("/large", ts, args);
+            ref::Decoded d = ref::decode((const uint8_t *)base.data(), base.size());
+            run_one((const uint8_t *)base.data(), base.size(), "large");
+            for(size_t p = 0; p < base.size(); ++p) run_one((const uint8_t *)base.data(), p, "large-trunc");
+            std::set<size_t> pos; for(size_t p = 0; p < 40 && p < base.size(); ++p) pos.insert(p);
+            for(auto &a : d.args) for(long q = (long)a.off - 8; q < (long)a.off + 8; ++q) if(q >= 0 && (size_t)q < base.size()) pos.insert((size_t)q);
+            for(size_t p = base.size() > 12 ? base.size() - 12 : 0; p < base.size(); ++p) pos.insert(p);
+            for(size_t p : pos) for(uint8_t v : SETV) if((uint8_t)base[p] != v) { std::string m = base; m[p] = (char)v; run_one((const uint8_t *)m.data(), m.size(), "large-set"); }
+        }
+        vp::bound("large_family", "5 type strings with a 130/200/255/256/384-byte blob or string as first argument: every truncation, byte edits in the header and around every payload boundary");
     }
     // (2b) word-exhaustive family: in every valid message of a tiny family, each aligned 4-byte word in turn is replaced by
     //      ALL 12^4 words over the alphabet (reaches what needs two or three deviations inside one word, e.g. an empty
